@@ -54,7 +54,7 @@ KW_FIELDS = [("freq", "kw_freq", "O:FREQ"), ("interval", "kw_interval", "OZ"), (
              ("bysetpos", "kw_bysetpos", "O:L:Z"), ("byhour", "kw_byhour", "O:L:Z"),
              ("byminute", "kw_byminute", "O:L:Z"), ("bysecond", "kw_bysecond", "O:L:Z"),
              ("wkst", "kw_wkst", "O:WKST")]
-KWDICTS = {"KW": dict(mk="mkKW", fields=KW_FIELDS)}
+KWDICTS = {"KW": dict(mk="mkKW", fields=KW_FIELDS, set="set_{key}")}
 
 # wkst as stored in rrule_kwargs: a dateutil weekday object or an int
 WKST_SUM = {"WKST": dict(
@@ -67,8 +67,10 @@ WKST_SUM = {"WKST": dict(
 TABLES = [
     "_FREQ_TO_STRING = {DAILY: 'DAILY', WEEKLY: 'WEEKLY', MONTHLY: 'MONTHLY', YEARLY: 'YEARLY'}",
     "_WEEKDAY_INT_TO_STRING = {0: 'MO', 1: 'TU', 2: 'WE', 3: 'TH', 4: 'FR', 5: 'SA', 6: 'SU'}",
-    "from dateutil.rrule import DAILY, FR, MO, MONTHLY, SA, SU, TH, TU, WE, WEEKLY, YEARLY, rrule, weekday",
 ]
+RRULE_NAMES = [("dateutil.rrule", n) for n in ("DAILY", "WEEKLY", "MONTHLY", "YEARLY", "MO", "TU", "WE", "TH", "FR", "SA",
+                                                "SU", "weekday")]
+DT_NAMES = [("datetime", "datetime")]
 
 SPECS_REC = [
     # ---- the public dispatcher
@@ -90,7 +92,7 @@ SPECS_REC = [
          text_exprs={"freq not in _FREQ_TO_STRING": ("false", "B"),
                      "_FREQ_TO_STRING[freq]": ("(tok_freq freq)", "STR")},
          rec_ext=dict(strs=STRS, kwdicts=KWDICTS, opt_if=True, const_dicts=["_RRULE_LIST_FIELDS"],
-                      isinstance={("WD", "weekday"): True})),
+                      isinstance={("WD", "weekday"): True}, imports=RRULE_NAMES)),
     dict(name="g_to_rrule_string", file=REC, cls="RecurringPattern", func="to_rrule_string", kind="expr", res=True,
          ret="STR", types={"STR": "text", "KW": "kwargs"},
          params=[("self_rrule_kwargs", "KW")], selfattrs={"rrule_kwargs": ("self_rrule_kwargs", "KW")},
@@ -157,7 +159,7 @@ SELF_LOCALS = ["freq", "interval", "duration_seconds", "interval_class", "metada
 
 
 def frag(i, outs, **more):
-    return dict(more, fragment=dict(tiling=TILING, index=i, outs=outs, self_locals=SELF_LOCALS,
+    return dict(more, imports=RRULE_NAMES + DT_NAMES, fragment=dict(tiling=TILING, index=i, outs=outs, self_locals=SELF_LOCALS,
                                     sets=["valid_weekdays"], kwlocals=["rrule_kwargs"]))
 
 
@@ -165,8 +167,6 @@ DAY_MAP_PIN = ("_DAY_MAP: dict[str, weekday] = {'monday': MO, 'tuesday': TU, 'we
                "'friday': FR, 'saturday': SA, 'sunday': SU, 'MO': MO, 'TU': TU, 'WE': WE, 'TH': TH, 'FR': FR, "
                "'SA': SA, 'SU': SU, 'mo': MO, 'tu': TU, 'we': WE, 'th': TH, 'fr': FR, 'sa': SA, 'su': SU}")
 FREQ_MAP_PIN = "_FREQ_MAP = {'daily': DAILY, 'weekly': WEEKLY, 'monthly': MONTHLY, 'yearly': YEARLY}"
-IMPORT_PIN = "from dateutil.rrule import DAILY, FR, MO, MONTHLY, SA, SU, TH, TU, WE, WEEKLY, YEARLY, rrule, weekday"
-DT_PIN = "from datetime import datetime, timedelta"
 
 _ST = [("StInt", [("z", "Z")]), ("StAware", [("dt", "DT")]), ("StNaive", [("dt", "DT")])]
 START_HEAD = {"START": dict(coq="(start_arg DT)", ctors=_ST, exprs={
@@ -277,20 +277,20 @@ SPECS_REC += [
          params=[("val", "O:INTARG")], rec_ext=dict(opt_if=True, isinstance={})),
     dict(INIT, name="g_rp_head", kind="expr", res=True, ret="HEADOUT", tyvars=["DT", "ZONE", "TZ", "IC", "MD"],
          types=dict(BASE_T, DT="DT", ZONE="ZONE", TZ="TZ", IC="IC", MD="MD", HEADOUT=TUPLE_T["HEADOUT"]),
-         tuples={"HEADOUT": TUPLES["HEADOUT"]}, enums=FREQ, sums=START_HEAD, file_has=[DT_PIN],
+         tuples={"HEADOUT": TUPLES["HEADOUT"]}, enums=FREQ, sums=START_HEAD, 
          params=HEAD_F + HEAD_P,
          calls={"ZoneInfo": ("zoneinfo", ["TZ"], "ZONE")}, text_exprs={"ZoneInfo('UTC')": ("zone_utc", "ZONE")},
          rec_ext=frag(0, HEAD_O, opt_if=True, empty_sets=True, isinstance={})),
     dict(INIT, name="g_rp_start", kind="expr", res=True, ret="STARTOUT", tyvars=["DT", "ZONE"],
          types=dict(BASE_T, DT="DT", ZONE="ZONE", STARTOUT=TUPLE_T["STARTOUT"]), tuples={"STARTOUT": TUPLES["STARTOUT"]},
-         sums=START_START, file_has=[DT_PIN], params=START_F + START_P,
+         sums=START_START,  params=START_F + START_P,
          locals={"anchor_dt": "O:DT", "self_anchor_timestamp": "OZ"}, annotations={"datetime | None": "O:DT"},
          calls={"datetime.fromtimestamp": dict(coq="dt_fromtimestamp", args=["Z"], kw=[("tz", "ZONE")], ret="DT")},
          methods={("DT", "timestamp"): dict(coq="dt_timestamp", args=[], ret="Z")},
          attrs={("DT", "hour"): ("dt_hour", "Z"), ("DT", "minute"): ("dt_minute", "Z"), ("DT", "second"): ("dt_second", "Z")},
          rec_ext=frag(1, START_O, opt_if=True, isinstance={})),
     dict(INIT, name="g_rp_check", kind="expr", res=True, ret="B", tyvars=["DT", "DS"],
-         types=dict(BASE_T, DT="DT", DS="DS"), sums=DAYARG, file_has=[DAY_MAP_PIN, IMPORT_PIN],
+         types=dict(BASE_T, DT="DT", DS="DS"), sums=DAYARG, file_has=[DAY_MAP_PIN],
          params=CHECK_F + CHECK_P, locals={"valid_weekdays": "L:Z"},
          methods={("DT", "weekday"): dict(coq="dt_weekday", args=[], ret="Z"),
                   ("DS", "lower"): dict(coq="ds_lower", args=[], ret="DS")},
@@ -302,7 +302,7 @@ SPECS_REC += [
          types=dict(BASE_T, DS="DS", STOREOUT=TUPLE_T["STOREOUT"], **PLAIN_ARGS), tuples={"STOREOUT": TUPLES["STOREOUT"]},
          params=STORE_P, rec_ext=frag(3, STORE_O)),
     dict(INIT, name="g_rp_days", kind="expr", res=True, ret="KW", tyvars=["DS"],
-         types=dict(BASE_T, DS="DS"), enums=FREQ, sums=DAYARG, file_has=[DAY_MAP_PIN, FREQ_MAP_PIN, IMPORT_PIN],
+         types=dict(BASE_T, DS="DS"), enums=FREQ, sums=DAYARG, file_has=[DAY_MAP_PIN, FREQ_MAP_PIN],
          params=DAYS_F + DAYS_P, annotations={"dict[str, Any]": "KW", "list[weekday]": "L:WD"},
          methods={("DS", "lower"): dict(coq="ds_lower", args=[], ret="DS"),
                   ("DS", "upper"): dict(coq="ds_upper", args=[], ret="DS")},
@@ -310,12 +310,12 @@ SPECS_REC += [
          rec_ext=frag(4, ["rrule_kwargs"], opt_if=True, isinstance={}, kwdicts=KWDICTS, absstr=ABSSTR,
                       wd_call=dict(type="WD", coq="wd_call"), try_value_error=True, skip_message_assigns=True)),
     dict(INIT, name="g_rp_lists", kind="expr", res=True, ret="KW", tyvars=["DS"],
-         types=dict(BASE_T, DS="DS", INTARG="intarg"), sums=WKARG, file_has=[DAY_MAP_PIN, IMPORT_PIN] + TABLES[1:2],
+         types=dict(BASE_T, DS="DS", INTARG="intarg"), sums=WKARG, file_has=[DAY_MAP_PIN] + TABLES[1:2],
          params=LISTS_F + LISTS_P, annotations={"dict[str, Any]": "KW"},
          calls={"_to_int_list": dict(coq="g_to_int_list", args=["O:INTARG"], ret="O:L:Z")},
          rec_ext=frag(5, ["self_rrule_kwargs"], opt_if=True, isinstance={}, kwdicts=KWDICTS, dictlits=["list_args"])),
     dict(INIT, name="g_rp_epoch", kind="expr", res=True, ret="DT", tyvars=["DT", "ZONE"],
-         types=dict(BASE_T, DT="DT", ZONE="ZONE"), file_has=[DT_PIN], params=EPOCH_F + EPOCH_P,
+         types=dict(BASE_T, DT="DT", ZONE="ZONE"),  params=EPOCH_F + EPOCH_P,
          calls={"datetime": dict(coq="dt_make", args=["Z", "Z", "Z"], kw=[("tzinfo", "ZONE")], ret="DT")},
          rec_ext=frag(6, ["self__epoch"])),
     # the whole constructor: the fragments in sequence (generated from their inputs / outputs; T16)
@@ -324,7 +324,7 @@ SPECS_REC += [
                     **PLAIN_ARGS, **TUPLE_T),
          tuples=TUPLES, enums=FREQ, params=SEQ_F + SEQ_P,
          calls={c: frag_call(n, f, p, r) for c, n, f, p, _o, r in PARTS},
-         rec_ext=dict(seq=dict(tiling=TILING, self_locals=SELF_LOCALS, sets=["valid_weekdays"], kwlocals=["rrule_kwargs"],
+         rec_ext=dict(imports=RRULE_NAMES + DT_NAMES, seq=dict(tiling=TILING, self_locals=SELF_LOCALS, sets=["valid_weekdays"], kwlocals=["rrule_kwargs"],
                                parts=[(c, [x for x, _ in p], o) for c, _n, _f, p, o, _r in PARTS],
                                finals=HEAD_O + START_O[1:] + STORE_O + ["self_rrule_kwargs", "self__epoch"]))),
 ]
